@@ -221,7 +221,27 @@ def cache_inplace_mutations(prog, pm):
                     level1[nm] = f"{v.value.id}.{v.attr}"
                 if isinstance(v, ast.Subscript) and isinstance(v.value, ast.Name) and v.value.id in level0:
                     level1[nm] = src(v)
+        # entries of local dicts that hold (a part of) the cached object: {"c": lp_data.c}, kwargs["c"] = c
+        def cached_part(v):
+            if isinstance(v, ast.Attribute) and isinstance(v.value, ast.Name) and v.value.id in level0:
+                return f"{v.value.id}.{v.attr}"
+            if isinstance(v, ast.Name) and v.id in level1:
+                return level1[v.id]
+            return None
+
+        held = {}
         for n in walk_local(fi.node, include_self=False):
+            if isinstance(n, (ast.Assign, ast.AnnAssign)) and isinstance(getattr(n, "value", None), ast.Dict):
+                tg = n.targets[0] if isinstance(n, ast.Assign) else n.target
+                if isinstance(tg, ast.Name):
+                    for k, v in zip(n.value.keys, n.value.values):
+                        if isinstance(k, ast.Constant) and cached_part(v):
+                            held[(tg.id, k.value)] = cached_part(v)
+            if isinstance(n, ast.Assign) and isinstance(n.targets[0], ast.Subscript) and isinstance(n.targets[0].value, ast.Name) and isinstance(n.targets[0].slice, ast.Constant) and cached_part(n.value):
+                held[(n.targets[0].value.id, n.targets[0].slice.value)] = cached_part(n.value)
+        for n in walk_local(fi.node, include_self=False):
+            if isinstance(n, ast.AugAssign) and isinstance(n.target, ast.Subscript) and isinstance(n.target.value, ast.Name) and isinstance(n.target.slice, ast.Constant) and (n.target.value.id, n.target.slice.value) in held:
+                out.append((fi, n, f"`{src(n)[:50]}` modifies {held[(n.target.value.id, n.target.slice.value)]} (part of the cached object, held in a local dict) in place"))
             if isinstance(n, ast.AugAssign):
                 t = n.target
                 base = t.value if isinstance(t, (ast.Subscript, ast.Attribute)) else t
